@@ -12,6 +12,7 @@ import (
 	"os"
 	"sort"
 	"strconv"
+	"sync"
 )
 
 var (
@@ -153,7 +154,27 @@ func TraceAt(i int) string { return trace[i] }
 func Symbolic() bool { return false }
 
 // Held, NumSpawned, RunSpawned, ExpectBlocked exist only under the VM; natively they are inert.
-func Held(mu any) int   { return 0 }
+func Held(mu any) int {
+	switch m := mu.(type) {
+	case *sync.Mutex:
+		if m.TryLock() {
+			m.Unlock()
+			return 0
+		}
+		return -1
+	case *sync.RWMutex:
+		if m.TryLock() {
+			m.Unlock()
+			return 0
+		}
+		if m.TryRLock() {
+			m.RUnlock()
+			return 1
+		}
+		return -1
+	}
+	return 0
+}
 func NumSpawned() int   { return 0 }
 func RunSpawned(i int)  {}
 func ExpectBlocked()    {}
